@@ -65,7 +65,7 @@ DIRS = {'E': (1, 0), 'W': (-1, 0), 'N': (0, 1), 'S': (0, -1), 'NE': (1, 1), 'SW'
 
 
 def instances(tier):
-    inst = [('distance',), ('project',), ('dps',), ('box',), ('dss_struct',)]
+    inst = [('distance',), ('project',), ('dps',), ('box',), ('dss_struct',), ('project_delta',), ('dps_delta',)]
     if tier == 'quick':
         pairs = [('unit', d) for d in ('E', 'W', 'N', 'NE')] + [('diag', d) for d in ('par_diag', 'anti_diag')]
     else:
@@ -104,6 +104,14 @@ def run_instance(inst):
         if kind == 'dps':
             s1, s2, p = (fresh('ay'), fresh('ax')), (fresh('by'), fresh('bx')), (fresh('py'), fresh('px'))
             return dict(args=(p, s1, s2), res=de.distance_point_to_segment(p, s1, s2))
+        if kind in ('project_delta', 'dps_delta'):
+            # optional argument delta: "keep delta fraction away from ends" - nearest point of the part [delta, 1-delta] of the segment
+            s1, s2, p = (fresh('ay'), fresh('ax')), (fresh('by'), fresh('bx')), (fresh('py'), fresh('px'))
+            dl = fresh('delta')
+            eng.assume(z3.And(dl.t >= 0, dl.t <= z3.Q(1, 2)))
+            if kind == 'project_delta':
+                return dict(args=(s1, s2, p, dl), res=de.project(s1, s2, p, delta=dl))
+            return dict(args=(p, s1, s2, dl), res=de.distance_point_to_segment(p, s1, s2, delta=dl))
         if kind == 'box':
             p, r = (fresh('py'), fresh('px')), fresh('r')
             eng.assume(r.t >= 0)
@@ -152,6 +160,25 @@ def run_instance(inst):
             # exact nearest point outside the tolerance branch; inside it every segment point is within 1.5e-8 of pi
             cl.append(('nearest', z3.Implies(z3.And(u >= 0, u <= 1),
                                              z3.If(degenerate, d2(pi, w) <= DEG2, d2(p, w) >= dist2)), [u]))
+        elif kind in ('project_delta', 'dps_delta'):
+            if kind == 'project_delta':
+                s1, s2, p = map(L, a[:3])
+                pi, t = L(r[0]), E.lift(r[1])
+            else:
+                p, s1, s2 = map(L, a[:3])
+                pi, t = L(r[1]), E.lift(r[2])
+                d = E.lift(r[0])
+                cl.append(('dist_is_distance_to_reported_point', z3.And(d >= 0, d * d == d2(p, pi)), None))
+            dl = E.lift(a[3])
+            dist2 = d2(p, pi)
+            degenerate = z3.And(s1[0] - s2[0] <= z3.Q(1, 10 ** 8), s2[0] - s1[0] <= z3.Q(1, 10 ** 8),
+                                s1[1] - s2[1] <= z3.Q(1, 10 ** 8), s2[1] - s1[1] <= z3.Q(1, 10 ** 8))
+            cl.append(('t_in_unit', z3.And(t >= 0, t <= 1), None))
+            cl.append(('t_keeps_delta_away_from_the_ends', z3.Or(degenerate, z3.And(t >= dl, t <= 1 - dl)), None))
+            cl.append(('pi_at_t', z3.And(pi[0] == s1[0] + t * (s2[0] - s1[0]), pi[1] == s1[1] + t * (s2[1] - s1[1])), None))
+            w = at(s1, s2, u)
+            cl.append(('nearest_admissible_point', z3.Implies(z3.And(u >= dl, u <= 1 - dl),
+                                                              z3.If(degenerate, d2(pi, w) <= DEG2, d2(p, w) >= dist2)), [u]))
         elif kind == 'box':
             p, rr = L(a[0]), E.lift(a[1])
             lat_b, lon_l, lat_t, lon_r = map(E.lift, r)
@@ -200,6 +227,23 @@ def run_instance(inst):
                     ref = c_pt_seg(p, s1, s2)
                     bad = not (0 <= t <= 1) or abs(d - ref) > 3e-8 + 1e-9 * ref
                     return bad, f"distance_point_to_segment{cargs}=({d},{pi},{t}) ref={ref}"
+                if kind in ('project_delta', 'dps_delta'):
+                    if kind == 'project_delta':
+                        s1, s2, p, dl = cargs
+                        pi, t = de.project(s1, s2, p, delta=dl)
+                        d = math.hypot(p[0] - pi[0], p[1] - pi[1])
+                    else:
+                        p, s1, s2, dl = cargs
+                        d, pi, t = de.distance_point_to_segment(p, s1, s2, delta=dl)
+                    l2 = (s2[0] - s1[0]) ** 2 + (s2[1] - s1[1]) ** 2
+                    if l2 <= 4e-16:
+                        return False, "degenerate segment: not judged"
+                    tt = ((p[0] - s1[0]) * (s2[0] - s1[0]) + (p[1] - s1[1]) * (s2[1] - s1[1])) / l2
+                    tt = max(dl, min(1 - dl, tt))
+                    ref = math.hypot(p[0] - s1[0] - tt * (s2[0] - s1[0]), p[1] - s1[1] - tt * (s2[1] - s1[1]))
+                    got = math.hypot(p[0] - pi[0], p[1] - pi[1])
+                    bad = not (dl - 1e-12 <= t <= 1 - dl + 1e-12) or got > ref + 3e-8 + 1e-9 * ref or abs(d - got) > 3e-8 + 1e-9 * got
+                    return bad, f"{kind}{cargs}: point {pi} at t={t}, distance {d}; nearest point within [delta, 1-delta] is at t={tt}, distance {ref}"
                 if kind == 'box':
                     b = de.box_around_point(*cargs)
                     (y, x), r = cargs
